@@ -11,6 +11,6 @@ import (
 // of the re-downsampling) and of the 1 h level (its output).
 func TestC38(t *testing.T) {
 	rnd := vt.Rand()
-	vt.Run(t, func(yield func(vt.Case)) { pipelineCases(t, rnd, true, yield) },
+	vt.Run(t, func(yield func(vt.Case)) { pipelineCases(t, rnd, true, true, yield) },
 		func(vt.Case) string { return "" }, runPipeline)
 }
